@@ -7,7 +7,8 @@ b = json.load(open("/root/.vp/BASELINE.json"))
 out = tempfile.mktemp(suffix=".xml")
 env = dict(os.environ)
 env.pop("RIG_VERIF", None)
-cmd = b["cmd"].replace("<file>", out)
+repo = sys.argv[1] if len(sys.argv) > 1 else "/repo"
+cmd = b["cmd"].replace("<file>", out).replace("cd /repo", "cd " + repo)
 subprocess.run(cmd, shell=True, env=env, stdout=subprocess.DEVNULL, stderr=subprocess.DEVNULL)
 passed = set()
 for tc in ET.parse(out).getroot().iter("testcase"):
